@@ -5,9 +5,10 @@ import urlkit as U
 PROPERTY = "C17"
 LEVEL = "model_checking"
 BUDGET = {"quick": 240, "thorough": 2400}
-BOUNDS = {"quick": "constructor: port text of <= 5 free code points x schemes {http, https, ws, wss, ftp, x, ''} x hosts {reg-name, IPv6, IPv4}; "
-                   "build(port=) and with_port() with a symbolic integer in [-70000, 70000]",
-          "thorough": "port text of <= 6 free code points; same integer range; more base URLs"}
+BOUNDS = {"quick": "constructor: port text of <= 6 free code points x schemes {http, https, ws, wss, ftp, x, ''} x hosts {reg-name, IPv6, IPv4}; "
+                   "build(port=) and with_port() with a symbolic integer in [-70000, 70000]; two-step histories build(port=p in [0, 999]).with_scheme(s2) and "
+                   "URL(s1://h:<= 3 free digits>/).with_scheme(s2) over 6 x 6 scheme pairs, with origin() and with_port(None) on the result",
+          "thorough": "port text of <= 7 free code points; symbolic integers in [-10^7, 10^7]; re-scheme histories with p in [0, 9999] and <= 5 free digits (value <= 65535)"}
 ASSUMPTIONS = ["port text reaching int() without being ASCII digits is reported (int()'s own leniency - sign, underscore, whitespace - is not modelled further)",
                "holes of the port text are not URL structure characters (/ ? # @ [ ] : TAB CR LF); those shapes belong to C07",
                "for the build() route explicit_port is not asserted when the port equals the scheme default (build drops it; the property defines "
@@ -106,9 +107,9 @@ def h_ctor(ctx, scheme, host, k, encoded=False, hostsub=None):
     expected_views(ctx, u, scheme, hostsub, v, port_text=d if encoded else None, ui=ui)
 
 
-def h_build(ctx, scheme, host, hostsub):
+def h_build(ctx, scheme, host, hostsub, lim=70000):
     P = ctx.P
-    p = ctx.int("port", -70000, 70000)
+    p = ctx.int("port", -lim, lim)
     r = call(lambda: P.URL.build(scheme=scheme, host=host, port=p, path="/"))
     ctx.observe("build", outcome(r))
     inrange = all_of([p >= 0, p <= 65535])
@@ -131,9 +132,9 @@ def h_build(ctx, scheme, host, hostsub):
         ctx.check("explicit_port", sym_eq(u.explicit_port, p))
 
 
-def h_with_port(ctx, base, scheme, hostsub, userinfo):
+def h_with_port(ctx, base, scheme, hostsub, userinfo, lim=70000):
     P = ctx.P
-    p = ctx.int("port", -70000, 70000)
+    p = ctx.int("port", -lim, lim)
     b = P.URL(base)
     r = call(b.with_port, p)
     ctx.observe("with_port", outcome(r))
@@ -150,6 +151,43 @@ def h_with_port(ctx, base, scheme, hostsub, userinfo):
     ctx.check("zero-is-not-absent", u.explicit_port is not None)
     c = call(u.with_port, None)
     ctx.check("with_port(None)-clears", c[0] == "ok" and c[1].explicit_port is None and sym_eq(c[1].port, DEFAULTS.get(scheme)))
+
+
+def h_rescheme(ctx, s1, s2, k=None, hi=65535):
+    """two-step history: a port written under scheme s1, then with_scheme(s2): the written value is kept and its default-ness follows s2
+    (k None: build(port=p) with a symbolic integer - build() drops p when it is s1's default; k: URL text with k free digits)"""
+    P = ctx.P
+    if k is None:
+        p = ctx.int("port", 0, hi)
+        r = call(lambda: P.URL.build(scheme=s1, host="h", port=p, path="/"))
+        written = None if (DEFAULTS.get(s1) is not None and p == DEFAULTS[s1]) else p
+    else:
+        d = ctx.str("d", k, lo=48, hi=57)
+        p = int(d)
+        ctx.assume(p <= 65535, "re-scheme histories start from an in-range port")
+        r = call(P.URL, s1 + "://h:" + d + "/")
+        written = p
+    ctx.check("in-range-port-accepted", r[0] == "ok", r[1])
+    if r[0] != "ok":
+        return
+    m = call(r[1].with_scheme, s2)
+    ctx.observe("with_scheme", outcome(m))
+    ctx.check("with_scheme-accepts", m[0] == "ok", m[1])
+    if m[0] != "ok":
+        return
+    u = m[1]
+    expected_views(ctx, u, s2, "h", written)
+    o = call(u.origin)
+    ctx.check("origin-keeps-written-port", o[0] == "ok" and sym_eq(o[1].explicit_port, written))
+    if o[0] == "ok":
+        expected_views(ctx, o[1], s2, "h", written, tail="")
+    c = call(u.with_port, None)
+    ctx.check("with_port(None)-clears", c[0] == "ok" and c[1].explicit_port is None and sym_eq(c[1].port, DEFAULTS.get(s2)))
+    if written is not None:
+        b = call(u.with_scheme, s1)
+        ctx.check("back-to-first-scheme-keeps-port", b[0] == "ok" and sym_eq(b[1].explicit_port, written))
+        if b[0] == "ok":
+            expected_views(ctx, b[1], s1, "h", written)
 
 
 def h_types(ctx):
@@ -169,7 +207,8 @@ def h_types(ctx):
 def families(tier):
     q = tier == "quick"
     fams = []
-    kmax = 5 if q else 6
+    kmax = 6 if q else 7
+    lim = 70000 if q else 10 ** 7
     for scheme in ("http", "https", "ws", "wss", "ftp", "x", ""):
         for host in (("h", "[::1]", "1.2.3.4") if scheme in ("http", "x") else ("h",)):
             for k in range(0, kmax + 1):
@@ -185,10 +224,18 @@ def families(tier):
         fams.append(Family("ctor-userinfo/x/k=%d" % k, h_ctor, dict(scheme="x", host="u@[::1]", k=k, hostsub="[::1]")))
     for scheme in ("http", "https", "ws", "wss", "ftp", "x", ""):
         for host, hostsub in (("h", "h"), ("::1", "[::1]"), ("1.2.3.4", "1.2.3.4")):
-            fams.append(Family("build/%s/%s" % (scheme or "none", host), h_build, dict(scheme=scheme, host=host, hostsub=hostsub)))
+            fams.append(Family("build/%s/%s" % (scheme or "none", host), h_build, dict(scheme=scheme, host=host, hostsub=hostsub, lim=lim)))
     bases = [("http://h/", "http", "h", ""), ("https://h:8443/", "https", "h", ""), ("x://[::1]:5/", "x", "[::1]", ""),
              ("ftp://1.2.3.4/", "ftp", "1.2.3.4", ""), ("//h/", "", "h", ""), ("http://u:p@h:80/", "http", "h", "u:p@")]
     for i, (b, sc, hs, ui) in enumerate(bases):
-        fams.append(Family("with_port/base-%d" % i, h_with_port, dict(base=b, scheme=sc, hostsub=hs, userinfo=ui)))
+        fams.append(Family("with_port/base-%d" % i, h_with_port, dict(base=b, scheme=sc, hostsub=hs, userinfo=ui, lim=lim)))
+    rs = ("http", "https", "ws", "wss", "ftp", "x")
+    for s1 in rs:
+        for s2 in rs:
+            if s1 != s2:
+                fams.append(Family("rescheme/build/%s-%s" % (s1, s2), h_rescheme, dict(s1=s1, s2=s2, hi=999 if q else 9999)))
+    for s1, s2 in (("http", "https"), ("https", "http"), ("x", "ftp"), ("ws", "x"), ("ftp", "wss")):
+        for k in ((1, 2, 3) if q else (1, 2, 3, 4, 5)):
+            fams.append(Family("rescheme/ctor/%s-%s/k=%d" % (s1, s2, k), h_rescheme, dict(s1=s1, s2=s2, k=k)))
     fams.append(Family("types", h_types, {}))
     return fams
